@@ -2,6 +2,9 @@ import Juniper.Proofs.ParDoState
 /-! Inductive invariants of the `parallel.Do` / `DoContext` LTS, part 3: error provenance — whatever
 errgroup records, a worker returns or the call returns is an error that a call of `f` returned or the
 caller's own context error; never the cancellation the errgroup caused itself. -/
+set_option linter.unusedSimpArgs false
+set_option linter.unusedVariables false
+
 namespace Juniper.Proofs.ParDo
 open Juniper.Gen Juniper.Model.ParDo
 
